@@ -36,12 +36,19 @@ def run_sim_batch(scenarios, wd, tag, jobs=4):
             p = subprocess.run([vlib.VH, "sim", "--scenarios", sp, "--out", outp, "--start", str(start)],
                                stdout=subprocess.PIPE, stderr=subprocess.PIPE, text=True, timeout=3600)
             if p.returncode != 0:
-                # a crash of the harness process (abort in the code under test): record and continue
-                with open(outp, "a") as f:
-                    f.write(json.dumps({"ev": "Reset", "name": chunks[k][start].get("name"), "seed": chunks[k][start].get("seed"),
-                                        "frag": chunks[k][start].get("frag")}) + "\n")
-                    f.write(json.dumps({"ev": "SimError", "scenario": start, "err": f"process exit {p.returncode}: {p.stderr[-300:]}"}) + "\n")
-                start += 1
+                # a crash of the harness process (abort in the code under test, or the wall-clock watchdog): the scenarios
+                # completed so far each left one Reset in the trace; the watchdog also records the hanging one itself
+                lines = open(outp).read().splitlines() if os.path.exists(outp) else []
+                resets = sum(1 for l in lines if re.search(r'"ev":\s*"Reset"', l[:60]))
+                last_is_error = bool(lines) and re.search(r'"ev":\s*"SimError"', lines[-1]) is not None
+                if p.returncode == 3 and last_is_error:
+                    start = resets
+                else:
+                    crashed = resets
+                    with open(outp, "a") as f:
+                        f.write(json.dumps({"ev": "Reset", "name": chunks[k][min(crashed, len(chunks[k]) - 1)].get("name")}) + "\n")
+                        f.write(json.dumps({"ev": "SimError", "scenario": crashed, "err": f"process exit {p.returncode}: {p.stderr[-300:]}"}) + "\n")
+                    start = crashed + 1
                 continue
             st = json.loads(p.stdout.strip().splitlines()[-1])
             start = st["done"]
